@@ -76,6 +76,11 @@ def install(it):
 
     @nat("range")
     def _range(it, *a):
+        if len(a) == 1 and isinstance(a[0], SV) and z3.is_const(a[0].z) and a[0].z.decl().name().startswith("n@") \
+                and getattr(it, "generic_loops", False):
+            from .tabletheory import RangeOver
+            from .arrays import Space
+            return RangeOver(Space.get(a[0].z.decl().name()[2:]))
         if any(isinstance(x, (SV, Opaque)) for x in a):
             if getattr(it, "opaque_loops", False):
                 return Opaque("range(unknown)")
@@ -99,6 +104,8 @@ def install(it):
             return acc
         if isinstance(cls, TypeStub):
             cls = cls.typ
+        if isinstance(cls, Native) and cls.name in ("dict", "list", "set", "tuple", "frozenset", "type", "range"):
+            cls = {"dict": dict, "list": list, "set": set, "tuple": tuple, "frozenset": frozenset, "type": type, "range": range}[cls.name]
         if isinstance(cls, Opaque):
             if isinstance(x, (SV, CV, int, float, str, bool, type(None))):
                 return False
@@ -205,6 +212,9 @@ def install(it):
     def _dict(it, *a, **k):
         if a and isinstance(a[0], Opaque):
             return Opaque(f"dict({a[0].why})")
+        if a and type(a[0]).__name__ == "ZipArr" and len(a[0].e) == 2 and not k:
+            from .tabletheory import SymMap
+            return SymMap(it, a[0].space, a[0].mask, a[0].e[0], a[0].e[1])
         d = PDict()
         if a:
             it.dict_update(d, a[0])
@@ -281,6 +291,9 @@ def install(it):
     def _enumerate(it, x, start=0):
         if unk(it, x):
             return Opaque(f"enumerate({_w(x)})")
+        if hasattr(x, "generic_row") and getattr(it, "generic_loops", False):
+            from .tabletheory import EnumArr
+            return EnumArr(it, x, start)
         return list(enumerate(it.iterate(x), start))
 
     @nat("map")
